@@ -41,7 +41,9 @@ THOROUGH_RUNS = 150_000
 QUICK_BUDGET_S = 100
 THOROUGH_BUDGET_S = 1500
 RULE = ("seeded programs (1-5 calls, padded batches) over a simulated shm-pipe with drawn segment size, shm threshold and release policy, "
-        "compared with the same program over a plain pipe; non-trivial = at least one batch travelled through shared memory; distinct = "
+        "compared with the same program over a plain pipe; exchanges may answer with the input's own arrays, between some calls the client does not "
+        "wait for the server to go quiet, line + focused pre-emption inside allocate()/free(), and every allocator operation of either side is "
+        "bracketed by an overlap monitor; non-trivial = at least one batch travelled through shared memory; distinct = "
         "distinct (program shape, segment size, threshold, release policy)")
 COMPONENTS = {
     "real": ["ShmPipeTransport", "ShmSegment/ShmAllocator", "maybe_write_to_shm/resolve_shm_batch", "RpcServer + client shm paths (_write_result_batch, "
